@@ -505,7 +505,7 @@ def interaction_checks(case):
         if not np.array_equal(Hc, cc * H1):
             k = int(np.argmax(np.abs(Hc - cc * H1)))
             r, c = divmod(k, H1.shape[1])
-            tag = "DROPPED" if abs(Hc[r, c] / cc - H1[r, c]) <= 1e-6 else "WRONG"
+            tag = "DROPPED" if abs(Hc[r, c] - cc * H1[r, c]) <= 1e-6 else "WRONG"
             return (f"{tag}: scale covariance broken: make_H(2^{kexp} U) contracts to {complex(Hc[r, c])!r} at "
                     f"({r},{c}) but 2^{kexp} x make_H(U) is {complex(cc * H1[r, c])!r} (must be exactly equal)")
     return None
@@ -524,15 +524,6 @@ def verbatim_check(case, factors, updated):
             allowed.add(abs(float(x)))
             allowed.add(2.0 * abs(float(x)))
     arr = np.array(sorted(allowed), dtype=np.float64)
-    seen = np.unique(np.abs(np.concatenate(
-        [np.concatenate([f.real.numpy().ravel(), f.imag.numpy().ravel()]) for f in factors])))
-    N = case["N"]
-    for i in range(N):
-        for j in range(i + 1, N):
-            u = abs(float(case["U"][i][j]))
-            if u != 0.0 and not (np.isin(u, seen) or np.isin(2.0 * u, seen)):
-                return (f"DROPPED: the non-zero coupling U[{i}][{j}] = {case['U'][i][j]!r} of the input appears in no "
-                        f"factor of the MPO (neither |U| nor 2|U|, bit for bit)")
     for n, f in enumerate(factors):
         if f.dtype != torch.complex128:
             return f"factor {n} has dtype {f.dtype}, expected complex128"
@@ -544,9 +535,21 @@ def verbatim_check(case, factors, updated):
         if not ok.all():
             v = float(parts[~ok][0])
             near = float(arr[np.abs(arr - v).argmin()])
-            return (f"factor {n} holds {v!r}, which is none of 0, 1, 1/2, |U_ij|, 2|U_ij| of the float64 input "
+            tag = "WRONG: " if abs(v - near) > 1e-3 * max(near, 1e-300) else ""
+            return (f"{tag}factor {n} holds {v!r}, which is none of 0, 1, 1/2, |U_ij|, 2|U_ij| of the float64 input "
                     f"(nearest {near!r}, relative error {abs(v - near) / max(near, 1e-300):.3g}): a coupling was "
                     f"not stored verbatim")
+    seen = np.unique(np.abs(np.concatenate(
+        [np.concatenate([f.real.numpy().ravel(), f.imag.numpy().ravel()]) for f in factors])))
+    N = case["N"]
+    for i in range(N):
+        for j in range(i + 1, N):
+            u = abs(float(case["U"][i][j]))
+            if u != 0.0 and not (np.isin(u, seen) or np.isin(2.0 * u, seen)):
+                near = bool((np.abs(seen - u) <= 1e-3 * u).any() or (np.abs(seen - 2 * u) <= 2e-3 * u).any())
+                tag = "" if near else ("DROPPED: " if u <= 1e-6 else "WRONG: ")
+                return (f"{tag}the non-zero coupling U[{i}][{j}] = {case['U'][i][j]!r} of the input appears in no "
+                        f"factor of the MPO (neither |U| nor 2|U|, bit for bit)")
     try:
         from emu_mps import hamiltonian as hm
         cls = hm.RydbergHamiltonianMPOFactors if case["ht"] == "Ryd" else hm.XYHamiltonianMPOFactors
